@@ -51,7 +51,7 @@ theorem invW_step {fx : Fixes} {cfg : Cfg} {sym lw : Nat} {line : List Sec} (hsy
   | nl style gs rest hs hlim heq hnl =>
     refine ⟨hrows, fun _ => Or.inr (Or.inl rfl), ?_, hfits'⟩
     simp only; omega
-  | split0 style gs rest hs hlim hge hnf hw hns =>
+  | split0 style gs rest hs hlim hge hnf hw hns hnfo =>
     have h2 := lw_ge_two_of_not_limit hlim
     have hlen : st.len < lw := len_lt_of_split hs h2 hlt hle hge hnf
     refine ⟨?_, fun _ => Or.inl (by simp only; omega), by simp, hfits'⟩
@@ -74,16 +74,16 @@ theorem invW_step {fx : Fixes} {cfg : Cfg} {sym lw : Nat} {line : List Sec} (hsy
     | inl h => exact hrows r h
     | inr h =>
       subst h
-      refine ⟨⟨st.curr ++ [(style, (takeFit (widthLeftF fx cfg lw st.len gs) gs).1)], by simp⟩, ?_⟩
-      have ht := takeFit_width (widthLeftF fx cfg lw st.len gs) gs
-      have hwl : widthLeftF fx cfg lw st.len gs = (gsWidth gs - (st.len + gsWidth gs - lw)) - cfg.leftSym.w := by
+      refine ⟨⟨st.curr ++ [(style, (takeFitF fx st.len (widthLeft cfg lw st.len gs) gs).1)], by simp⟩, ?_⟩
+      have htf : takeFitF fx st.len (widthLeft cfg lw st.len gs) gs = takeFit (widthLeft cfg lw st.len gs) gs := by
         cases hfp : fx.forceProgress with
-        | false => unfold widthLeftF; simp [hfp]
+        | false => exact takeFitF_eq fx _ _ _ (Or.inl hfp)
         | true =>
           have hfs : ∀ g ∈ gs, g.w + cfg.leftSym.w ≤ lw := hfits hfp (style, gs) (by rw [hs]; simp)
-          exact widthLeftF_fits hfs hlen hge
-      rw [hwl] at ht ⊢
-      rw [rowWidth_append, hcur]
+          exact takeFitF_fits hfs hge
+      have ht := takeFit_width (widthLeft cfg lw st.len gs) gs
+      rw [htf, rowWidth_append, hcur]
+      unfold widthLeft at ht ⊢
       simp only [rowWidth, gsWidth]
       omega
 
